@@ -1,5 +1,6 @@
 # configuration of ./check C03 (see checklib/props.py)
-PROP = {'level': 'proof',
+PROP = {'race': True,
+ 'level': 'proof',
  'rule': 'Packets x all codes -2..300 x secrets (incl. empty) through Encode; request/reply pairs (reply built from the parsed request) with '
          'single-byte corruption and a different secret; authentic and damaged (bit flip, truncation, extension) datagrams through both predicates; '
          'New() called 64 times per case.',
